@@ -7,6 +7,7 @@ import (
 	"math/rand"
 	"os"
 	"runtime"
+	"sort"
 	"strings"
 	"time"
 )
@@ -144,3 +145,5 @@ func ints(xs []int) []int {
 }
 
 func jsonMarshal(v any) ([]byte, error) { return json.Marshal(v) }
+
+func sortStrings(xs []string) { sort.Strings(xs) }
